@@ -82,9 +82,68 @@ func boundary() []Scenario {
 	ss = append(ss, Scenario{Family: "many-candidates", N: 4, F: 1, Byz: []int{3}, Steps: []Step{
 		{Op: "logs", Nodes: all4, Logs: seqInts(1000, 1130)}, {Op: "round", Nodes: all4, Byz: "replay"}, {Op: "round", Nodes: all4, Byz: "replay"},
 		{Op: "round", Nodes: all4, Byz: "replay"}}})
+	ss = append(ss, condFamilies()...)
 	// f = 0
 	ss = append(ss, Scenario{Family: "f-zero", N: 1, F: 0, Steps: []Step{
 		{Op: "logs", Nodes: []int{0}, Logs: seqInts(200, 203)}, {Op: "round", Nodes: []int{0}}, {Op: "round", Nodes: []int{0}}}})
+	return ss
+}
+
+// liveBound: rounds (3 s apart) within which an eligible conditional upkeep that is not in flight must be agreed:
+// sampled + proposed (3 s sampling tick), surfaced with a quorum block, coordinated + checked (1 s tick), agreed
+const liveBound = 5
+
+// liveBoundBlocked: the same when the work may sit in the outcome's surfaced-proposal history with a coordinated block that the
+// perform has overtaken (nodes that had not accepted yet proposed it again): it cannot be proposed afresh before that entry
+// leaves the 20-round history
+const liveBoundBlocked = 20 + liveBound + 2
+
+// condCycle: the conditional upkeeps cs are eligible on every honest node; rounds with all members until the bound
+func condCycle(members []int, byz string, cs []int, rounds int, skip []int) []Step {
+	st := []Step{{Op: "expect", Kind: "cond", Logs: cs, Conf: rounds}}
+	for i := 0; i < rounds; i++ {
+		st = append(st, Step{Op: "round", Nodes: members, Byz: byz, Skip: skip})
+	}
+	return st
+}
+
+func condFamilies() []Scenario {
+	var ss []Scenario
+	all4 := []int{0, 1, 2, 3}
+	// proposed -> coordinated -> checked -> agreed -> performed -> still eligible -> the whole cycle again (and again)
+	for _, byz := range []string{"honest", "garbage", "craft", "replay"} {
+		st := []Step{{Op: "cond", Nodes: all4, Logs: []int{1, 2}}}
+		for c := 0; c < 3; c++ {
+			st = append(st, condCycle(all4, byz, []int{1, 2}, liveBound, nil)...)
+			st = append(st, Step{Op: "events", Kind: "perform", Conf: 1, OnlyNew: true})
+		}
+		ss = append(ss, Scenario{Family: "cond-cycle-" + byz, N: 4, F: 1, Byz: []int{3}, Steps: st})
+	}
+	// the perform event is polled by nodes that have not accepted the report yet (it reaches them late); the provider keeps
+	// returning the event (look-back window), so they must still take note of it once they have accepted
+	for _, n := range [][2]int{{4, 1}, {7, 2}} {
+		mem := seqInts(0, n[0])
+		st := []Step{{Op: "cond", Nodes: mem, Logs: []int{3}}}
+		st = append(st, condCycle(mem, "honest", []int{3}, liveBound, seqInts(1, n[0]))...)
+		st = append(st, Step{Op: "events", Kind: "perform", Conf: 1, OnlyNew: true},
+			Step{Op: "round", Nodes: mem, Late: true})
+		st = append(st, condCycle(mem, "honest", []int{3}, liveBoundBlocked, nil)...)
+		ss = append(ss, Scenario{Family: "cond-event-before-late-accept", N: n[0], F: n[1], Steps: st})
+	}
+	// performed, then a stale-report event for the next cycle's report: released, reported again
+	st := []Step{{Op: "cond", Nodes: all4, Logs: []int{4}}}
+	st = append(st, condCycle(all4, "honest", []int{4}, liveBound, nil)...)
+	st = append(st, Step{Op: "events", Kind: "perform", Conf: 1, OnlyNew: true})
+	st = append(st, condCycle(all4, "honest", []int{4}, liveBound, nil)...)
+	st = append(st, Step{Op: "events", Kind: "stale", Conf: 1, OnlyNew: true})
+	st = append(st, condCycle(all4, "honest", []int{4}, liveBound, nil)...)
+	ss = append(ss, Scenario{Family: "cond-stale-then-again", N: 4, F: 1, Byz: []int{0}, Steps: st})
+	// one honest node down (restarting) during the cycle: 2f+1 honest members remain
+	st = []Step{{Op: "cond", Nodes: seqInts(0, 7), Logs: []int{5, 6, 7}}}
+	st = append(st, condCycle([]int{0, 1, 2, 3, 4}, "craft", []int{5, 6, 7}, liveBound, nil)...)
+	st = append(st, Step{Op: "events", Kind: "perform", Conf: 1, OnlyNew: true})
+	st = append(st, condCycle([]int{0, 1, 2, 3, 4, 5, 6}, "mutate", []int{5, 6, 7}, liveBound, nil)...)
+	ss = append(ss, Scenario{Family: "cond-minimal-members", N: 7, F: 2, Byz: []int{5, 6}, Steps: st})
 	return ss
 }
 
@@ -136,6 +195,20 @@ func randomScenario(r *Rng, k int) Scenario {
 			sc.Steps = append(sc.Steps, Step{Op: "sleep", Secs: []int{1, 5, 30, 101}[r.Intn(4)]})
 		}
 	}
+	if r.Chance(1, 2) {
+		// calm tail: fresh conditional upkeeps eligible on every node, every member in every round, whatever the Byzantine
+		// members send; performed, still eligible, reported again
+		mem := seqInts(0, n)
+		cs := []int{1000 + 3*k}
+		if r.Bool() {
+			cs = append(cs, 1001+3*k)
+		}
+		byz := []string{"honest", "garbage", "replay", "mutate", "craft", "copy1"}[r.Intn(6)]
+		sc.Steps = append(sc.Steps, Step{Op: "cond", Nodes: mem, Logs: cs})
+		sc.Steps = append(sc.Steps, condCycle(mem, byz, cs, liveBound, nil)...)
+		sc.Steps = append(sc.Steps, Step{Op: "events", Kind: "perform", Conf: 1 + r.Intn(2), OnlyNew: true, Dup: r.Bool()})
+		sc.Steps = append(sc.Steps, condCycle(mem, byz, cs, liveBound, nil)...)
+	}
 	return sc
 }
 
@@ -169,6 +242,7 @@ func TestC09(t *testing.T) {
 		{"mism", "find_idx (fun k => negb (n_conforms k)) cases"},
 		{"bad", "find_idx (fun k => negb (K09 k)) cases"},
 		{"kf_rebatch", "find_idx n_kf_rebatch cases"},
+		{"cov_live", "find_idx (fun k => negb (Nat.eqb (length (nc_live k)) 0)) cases"},
 		{"nontriv", "find_idx n_nontriv cases"},
 	})
 	WriteJSON(t, filepath.Join(dir, "cases.json"), map[string]any{"property": "C09", "seed": EnvSeed(), "cases": ss, "families": fam})
